@@ -86,3 +86,12 @@ Proof. vm_compute. split; reflexivity. Qed.
    there is never a second write attempt *)
 Lemma tbl_closesession_order : sc_closesession_sets_bit_before_write = true.
 Proof. vm_compute. reflexivity. Qed.
+
+(* the transport's deadlines, which the model abstracts (a transmit call leaves
+   the connection writable; SetCloseDeadline arms the reads of the underlying
+   connection): setWriteDeadline clears the write deadline in the very select
+   arm that expired it, and newConn looks the deadline methods up on the
+   previous (underlying) connection when a plain io.ReadWriter is layered over it *)
+Lemma tbl_transport_deadlines :
+  sc_writedeadline_cleared_where_expired = true /\ sc_newconn_deadlines_from_prev = true.
+Proof. vm_compute. split; reflexivity. Qed.
